@@ -1,3 +1,5 @@
+import OxyModel.Model.Heap
+
 /-!
 # Model of `internal/holsterv4/collections/ttlmap.go` (+ `priority_queue.go`) — core Lean only
 
@@ -87,5 +89,38 @@ def Map.victimOr (m : Map α) (choice : Option String) : String :=
   match choice with
   | some c => if m.isMin c then c else (m.firstMin).getD ""
   | none => (m.firstMin).getD ""
+
+/-! ### the map together with its expiry heap
+
+`TTL.Map` leaves the eviction victim open (`isMin`).  `HMap` adds the heap `expiryTimes` exactly as `ttlmap.go`
+drives it — `Push` on insert, `Update` (= `heap.Remove` + `heap.Push`) on refresh, `Remove` when `Get` deletes an
+expired entry, `Pop` in `freeSpace` — and takes the victim from it, which makes every step deterministic. -/
+
+structure HMap (α : Type) where
+  map : Map α
+  heap : Heap.T
+
+def HMap.empty (capacity : Nat) : HMap α := ⟨TTL.empty capacity, []⟩
+
+/-- the key of `expiryTimes.Peek()` -/
+def HMap.victim (m : HMap α) : String :=
+  match Heap.top m.heap with
+  | some x => x.1
+  | none => ""
+
+/-- `Get`; deleting an expired entry does `expiryTimes.Remove(mapEl.heapEl)` -/
+def HMap.get (m : HMap α) (k : String) (now : Nat) : HMap α × Option α :=
+  (⟨(m.map.get k now).1,
+    match m.map.find? k with
+    | some e => if e.expiry ≤ nowSec now then Heap.removeKey m.heap k else m.heap
+    | none => m.heap⟩, (m.map.get k now).2)
+
+/-- `Set`: `expiryTimes.Update` for a tracked key; else `freeSpace(1)` (`RemoveExpired(1)` / `RemoveLastUsed(1)`: both
+    `Pop` the heap top) when full, then `expiryTimes.Push` -/
+def HMap.set (m : HMap α) (k : String) (v : α) (ttl now : Nat) : HMap α :=
+  ⟨m.map.set k v ttl now m.victim,
+   match m.map.find? k with
+   | some _ => Heap.update m.heap k (expiryAt now ttl)
+   | none => Heap.push (if m.map.evicts k then Heap.pop m.heap else m.heap) (k, expiryAt now ttl)⟩
 
 end TTL
